@@ -23,3 +23,19 @@ def pairsOf {α : Type} (l : List α) (symmetry : Bool) : List (α × α) :=
     match l[ij.1]?, l[ij.2]? with
     | some a, some b => some (a, b)
     | _, _ => none)
+
+/-- the test of `add_constraints_from_two_lists_of_points` after the `fix:` commit:
+`if point_i is point_j or (i > j and symmetry)`.  `same` is the identity test of the two samples. -/
+def skipTwo (same symmetry : Bool) (i j : Nat) : Bool := same || (decide (i > j) && symmetry)
+
+/-- ordered pairs of samples a two-list condition is instantiated on (row-major) -/
+def pairsTwo {α : Type} [DecidableEq α] (l1 l2 : List α) (symmetry : Bool) : List (α × α) :=
+  l1.zipIdx.flatMap (fun ai =>
+    l2.zipIdx.filterMap (fun bj =>
+      if skipTwo (decide (ai.1 = bj.1)) symmetry ai.2 bj.2 then none else some (ai.1, bj.1)))
+
+/-- the table stored for a two-list condition: `none` where the code stores `0` -/
+def tableTwo {α : Type} [DecidableEq α] (l1 l2 : List α) (symmetry : Bool) : List (List (Option (α × α))) :=
+  l1.zipIdx.map (fun ai =>
+    l2.zipIdx.map (fun bj =>
+      if skipTwo (decide (ai.1 = bj.1)) symmetry ai.2 bj.2 then none else some (ai.1, bj.1)))
